@@ -523,6 +523,16 @@ func loadEvent(u Universe, path []Call, text string, viaUnmarshal bool) {
 	}
 	e["post"] = post
 	e["psize"] = sizeOf(x)
+	nv, nk := -1, -1
+	invoke(e, func() {
+		if v, ok := callSlice(x, "Values"); ok {
+			nv = v.Len()
+		}
+		if k, ok := callSlice(x, "Keys"); ok {
+			nk = k.Len()
+		}
+	})
+	e["nvals"], e["nkeys"] = nv, nk // len(Values()), len(Keys()) (-1: no such method)
 	// "exactly as it was before": full observation and deep fingerprint
 	e["sameobs"] = reflect.DeepEqual(normObs(x, preObs), normObs(x, postObs))
 	e["samefp"] = fp0 == fullFP(x)
